@@ -761,6 +761,8 @@ mod sync;
 #[cfg(feature = "sync")]
 #[cfg_attr(docsrs, doc(cfg(feature = "sync")))]
 pub use sync::{Cache, CacheBuilder};
+#[cfg(all(feature = "sync", transparencies_stretto_verif))]
+pub use sync::ParkedProcessor;
 
 #[cfg(feature = "async")]
 #[cfg_attr(docsrs, doc(cfg(feature = "async")))]
@@ -768,6 +770,8 @@ mod r#async;
 #[cfg(feature = "async")]
 #[cfg_attr(docsrs, doc(cfg(feature = "async")))]
 pub use r#async::{AsyncCache, AsyncCacheBuilder};
+#[cfg(all(feature = "async", transparencies_stretto_verif))]
+pub use r#async::AsyncParkedProcessor;
 
 // TODO: find the optimal value for this
 const DEFAULT_INSERT_BUF_SIZE: usize = 32 * 1024;
